@@ -165,9 +165,12 @@ class Exec:
                 warnings.simplefilter("ignore")
                 self._apply(op)
             return None
-        except (ValueError, KeyError, IndexError, TypeError, AttributeError) as e:
-            return type(e).__name__
         except Exception as e:
+            tb = e.__traceback__
+            while tb.tb_next is not None:
+                tb = tb.tb_next
+            if tb.tb_frame.f_code.co_filename.startswith("/verif/harness") and isinstance(e, (NameError, RuntimeError, AssertionError)):
+                raise           # raised by this harness itself (it happened once: a shadowed import): a harness defect, not an outcome
             return type(e).__name__
 
     def _apply(self, op):
@@ -276,7 +279,6 @@ class Exec:
             _ = (a + b) if op.get("sign", 1) > 0 else (a - b)
         elif k == "ctx_rename_one":
             # a context of its own around the renaming of one gene: everything, the genes not involved included, must be back afterwards
-            from cobra.manipulation import rename_genes
             with m:
                 rename_genes(m, {op["g"]: op["new"]})
         elif k == "ctx_rm_edit":
